@@ -8,8 +8,8 @@ from lib.fastsim import HarnessError
 ID = "C11"
 LEVEL = "exploration"
 RULE = ("case = (LiteDRAMAvalonMM2Native with avalon:port width 1/8..4 incl. the native up/down converters the bridge inserts, base address, max_burst_length 2-64, "
-        "burst_increment 1 or 2) x (legal Avalon-MM master: single and burst reads/writes, burstcount 1..max_burst_length, any byte enables, `write` low for 0-21 cycles "
-        "between beats of a write burst, every beat held unchanged under waitrequest, next command presented 0-11 cycles after the previous one was accepted with or "
+        "burst_increment 1 or 2) x (legal Avalon-MM master: single and burst reads/writes, burstcount 1..max_burst_length, any byte enables, `write` low for 0-24 cycles "
+        "between beats of a write burst, every beat held unchanged under waitrequest, next command presented 0-12 cycles after the previous one was accepted with or "
         "without waiting for outstanding read data, address/burstcount on later write beats held / burstcount 0 / unrelated) x (native-side realistic slave: stall "
         "schedule, strobe latencies, outstanding limit); non-trivial = a write burst with an idle gap, or a burst longer than the FIFO depth, or a native-side stall "
         "(cmd.valid & ~cmd.ready) while the bridge is in a burst state; distinct = distinct (device, stimulus) digests")
@@ -50,7 +50,7 @@ def tag(cfg):
 def stims(draw, cfg, max_ops):
     over = cfg["max_burst"] <= 16 and draw(st.integers(0, 3)) == 0
     align = cfg["port_dw"] > cfg["avl_dw"] and draw(st.booleans())
-    return dict(ops=draw(av.avalon_ops(cfg, max_ops, over_max=over, align=align)), slave=draw(av.slave_sched()), idle_clear=draw(st.booleans()))
+    return dict(ops=draw(av.avalon_ops(cfg, max_ops, over_max=over, align=align)), slave=draw(av.slave_sched()), idle_clear=draw(st.booleans()), aligned=align)
 
 
 def diagnose(run, fs):
